@@ -228,6 +228,8 @@ def families(ctx):
                 st["no_kernel"] += 1
                 continue
             desc = "runtime-error" if err else _same(got, want)
+            if desc and desc.startswith("values") and getattr(fam, "shape_only", False):
+                desc = None                   # the family models structure, element type and shape only (values: kernel arithmetic)
             try:
                 call = fam.call(args, kwargs)
                 obs = "RErr" if err else fam.res(args, kwargs, got)
